@@ -708,10 +708,10 @@ def fsck(image, offset=0, cp="ibm437", check_dirs=True):
                             z = units.index(0)
                             if any(u != 0xFFFF for u in units[z + 1:]):
                                 out.append(("lfn.padding", "%s: %r" % (path, name11)))
-                            if z + 1 + 13 <= len(units):
-                                out.append(("lfn.padding", "%s: a whole slot of padding before %r" % (path, name11)))
-                        elif len(units) % 13:
-                            out.append(("lfn.padding", "%s: no terminator" % path))
+                            if z + 1 + 13 <= len(units) or z % 13 == 0:
+                                out.append(("lfn.padding", "%s: a slot holding only terminator/padding before %r" % (path, name11)))
+                        elif 0xFFFF in units:
+                            out.append(("lfn.padding", "%s: 0xFFFF fill without NUL terminator before %r" % (path, name11)))
                         if len(units) and units[0] in (0, 0xFFFF):
                             out.append(("lfn.empty", "%s: %r" % (path, name11)))
                     if special:
